@@ -5,9 +5,11 @@ import (
 	"fmt"
 	"github.com/oasisprotocol/oasis-core/go/common/crypto/hash"
 	memorySigner "github.com/oasisprotocol/oasis-core/go/common/crypto/signature/signers/memory"
+	"github.com/oasisprotocol/oasis-core/go/common/version"
 	vaultState "github.com/oasisprotocol/oasis-core/go/consensus/cometbft/apps/vault/state"
 	roothash "github.com/oasisprotocol/oasis-core/go/roothash/api"
 	"github.com/oasisprotocol/oasis-core/go/roothash/api/commitment"
+	upgradeAPI "github.com/oasisprotocol/oasis-core/go/upgrade/api"
 	"math"
 	"sort"
 	"strings"
@@ -85,6 +87,15 @@ func NewView(r *Replica) (*View, error) {
 	}
 	v.Epoch = ep
 	return v, nil
+}
+
+// VRFState returns the beacon's VRF state (nil with the insecure backend or before the first block).
+func (v *View) VRFState() *beacon.VRFState {
+	st, err := beaconState.NewImmutableState(v.cx.State()).VRFState(v.ctx)
+	if err != nil {
+		return nil
+	}
+	return st
 }
 
 // Close releases the view.
@@ -262,6 +273,13 @@ func (g *TxGen) Gen(t *rapid.T) *TxDesc {
 	if g.W.Runtime != nil && !strings.Contains(g.Profile, "noroothash") {
 		// (checks that keep their own model of the runtime's commitment pool switch this traffic off)
 		kinds = append(kinds, "rtEvidence", "rtSubmitMsg", "rtCommit")
+		if strings.Contains(g.Profile, "rtheavy") {
+			kinds = append(kinds, "rtCommit", "rtCommit", "rtCommit", "rtCommit", "rtCommit", "rtCommit", "rtCommit", "rtCommit", "rtEvidence", "rtSubmitMsg", "rtSubmitMsg")
+		}
+	}
+	if strings.Contains(g.Profile, "gov") {
+		// governance-heavy: proposals get submitted and (mostly) voted through by the entities
+		kinds = append(kinds, "proposal", "proposal", "vote", "vote", "vote", "vote", "vote", "vote", "vote", "vote")
 	}
 	if strings.Contains(g.Profile, "vault") && g.W.Spec.WithVault {
 		kinds = append(kinds, "vaultCreate", "vaultAction", "vaultAction", "vaultAction", "vaultAction", "vaultAction", "vaultCancel", "withdraw", "withdraw", "withdraw", "withdraw", "fundVault", "fundVault")
@@ -334,9 +352,38 @@ func (g *TxGen) Gen(t *rapid.T) *TxDesc {
 			method, body = staking.MethodTransfer, &staking.Transfer{To: g.pickAddr(t, "to"), Amount: g.amount(t, bal, "amt")}
 			break
 		}
+		sched := g.nodeActor(t, g.Actors[rapid.IntRange(0, len(g.Actors)-1).Draw(t, "commitSched")])
+		if rs.Committee != nil && rapid.IntRange(0, 3).Draw(t, "commitMember") > 0 {
+			// mostly: a committee member commits, naming the highest-priority scheduler of the next round (itself, in
+			// half of these cases), so that rounds actually start, time out, resolve and fail
+			var members []*Actor
+			var top *Actor
+			for _, x := range g.Actors {
+				if x.Node == nil {
+					continue
+				}
+				for _, m := range rs.Committee.Members {
+					if m.PublicKey.Equal(x.Node.ID.Public()) {
+						members = append(members, x)
+						if rank, ok := rs.Committee.SchedulerRank(rs.LastBlock.Header.Round+1, m.PublicKey); ok && rank == 0 {
+							top = x
+						}
+						break
+					}
+				}
+			}
+			if len(members) > 0 {
+				na = members[rapid.IntRange(0, len(members)-1).Draw(t, "commitWho")]
+				if top != nil {
+					sched = top
+					if rapid.Bool().Draw(t, "commitByScheduler") {
+						na = top
+					}
+				}
+			}
+		}
 		a, acct = na, g.V.Account(na.Addr)
 		bal = &acct.General.Balance
-		sched := g.nodeActor(t, g.Actors[rapid.IntRange(0, len(g.Actors)-1).Draw(t, "commitSched")])
 		var round *uint64
 		if rapid.IntRange(0, 4).Draw(t, "commitOtherRound") == 0 {
 			rr := rs.LastBlock.Header.Round + uint64(rapid.IntRange(0, 3).Draw(t, "commitRound"))
@@ -425,7 +472,18 @@ func (g *TxGen) Gen(t *rapid.T) *TxDesc {
 		if len(props) > 0 && rapid.IntRange(0, 9).Draw(t, "voteReal") > 0 {
 			id = props[rapid.IntRange(0, len(props)-1).Draw(t, "voteProp")].ID
 		}
-		method, body = governance.MethodCastVote, &governance.ProposalVote{ID: id, Vote: governance.Vote(rapid.IntRange(0, 4).Draw(t, "vote"))}
+		vote := governance.Vote(rapid.IntRange(0, 4).Draw(t, "vote"))
+		if strings.Contains(g.Profile, "gov") && rapid.IntRange(0, 3).Draw(t, "voteYes") > 0 {
+			vote = governance.VoteYes
+			// (votes count for validator entities: let an entity sign)
+			if ents := g.W.Entities; len(ents) > 0 {
+				if x := g.actorByAddr(ents[rapid.IntRange(0, len(ents)-1).Draw(t, "voteEntity")].Address()); x != nil {
+					a, acct = x, g.V.Account(x.Addr)
+					bal = &acct.General.Balance
+				}
+			}
+		}
+		method, body = governance.MethodCastVote, &governance.ProposalVote{ID: id, Vote: vote}
 	case "vaultCreate":
 		other := g.pickActor(t, "vaultAdmin2")
 		auth := vault.Authority{Addresses: []staking.Address{a.Addr, other.Addr}, Threshold: uint8(rapid.SampledFrom([]int{1, 1, 1, 2, 0, 3}).Draw(t, "vaultThreshold"))}
@@ -621,7 +679,15 @@ func (g *TxGen) nodeActor(t *rapid.T, a *Actor) *Actor {
 
 func (g *TxGen) proposal(t *rapid.T) *governance.ProposalContent {
 	pc := &governance.ProposalContent{Metadata: &governance.ProposalMetadata{Title: "verif proposal", Description: "generated"}}
-	switch rapid.IntRange(0, 5).Draw(t, "propKind") {
+	switch rapid.IntRange(0, 7).Draw(t, "propKind") {
+	case 6, 7:
+		// a software upgrade scheduled far in the future (never reached inside a generated history)
+		pc.Upgrade = &governance.UpgradeProposal{Descriptor: upgradeAPI.Descriptor{
+			Versioned: cbor.NewVersioned(upgradeAPI.LatestDescriptorVersion),
+			Handler:   upgradeAPI.HandlerName(fmt.Sprintf("verif-upgrade-%d", rapid.IntRange(0, 2).Draw(t, "upgHandler"))),
+			Target:    version.Versions,
+			Epoch:     g.V.Epoch + 5000 + beacon.EpochTime(rapid.IntRange(0, 3).Draw(t, "upgEpoch")),
+		}}
 	case 0:
 		pc.CancelUpgrade = &governance.CancelUpgradeProposal{ProposalID: uint64(rapid.IntRange(0, 3).Draw(t, "cancelID"))}
 	case 1, 2:
@@ -742,6 +808,31 @@ func (g *TxGen) RefreshTx(ek *EntityKeys, nk *NodeKeys, expiration beacon.EpochT
 	return &TxDesc{
 		Raw:    SignTx(nk.ID, nonce, &transaction.Fee{Gas: transaction.Gas(gas)}, registry.MethodRegisterNode, sn),
 		Signer: nk.Name, Addr: addr, Method: registry.MethodRegisterNode, Nonce: nonce, Gas: gas, Note: "liveness refresh", ExpectAuthOK: true,
+	}
+}
+
+// VRFProveTx builds the node's VRF proof transaction for the current alpha (nil when the node's VRF key cannot prove).
+func (g *TxGen) VRFProveTx(nk *NodeKeys, vs *beacon.VRFState) *TxDesc {
+	if ms, ok := nk.VRF.(*memorySigner.Signer); ok {
+		ms.UnsafeSetRole(signature.SignerVRF) // test signers carry no role; signing does not look at it, proving does
+	}
+	proof, err := signature.Prove(nk.VRF, vs.Alpha)
+	if err != nil {
+		return nil
+	}
+	pi, err := proof.Proof.MarshalBinary()
+	if err != nil {
+		return nil
+	}
+	addr := staking.NewAddress(nk.ID.Public())
+	acct := g.V.Account(addr)
+	nonce := acct.General.Nonce + g.nonceAdd[addr]
+	body := &beacon.VRFProve{Epoch: vs.Epoch, Pi: pi}
+	gas := g.W.Spec.GasOp + g.W.Spec.GasTxByte*512
+	g.nonceAdd[addr]++
+	return &TxDesc{
+		Raw:    SignTx(nk.ID, nonce, &transaction.Fee{Gas: transaction.Gas(gas)}, beacon.MethodVRFProve, body),
+		Signer: nk.Name, Addr: addr, Method: beacon.MethodVRFProve, Nonce: nonce, Gas: gas, Note: "vrf proof", ExpectAuthOK: true,
 	}
 }
 
